@@ -20,3 +20,5 @@ def run(ctx):
     # a swap succeeds only if typing the replacement does not depend on what was typed before
     from ..rules_ast import persistent_state_rule
     ctx.guard(persistent_state_rule, ctx, "C19.history-free-typing")
+    from ..rules_misc import assembly_layering_rule
+    ctx.guard(assembly_layering_rule, ctx, "C19.assembly-layering")
